@@ -698,6 +698,37 @@ fn judge_string(tera: &Tera, s: &str, acc: &mut Acc, sample: bool) {
         acc.case(nonempty, class);
     }
 
+    // ---- the same string written as a template LITERAL (escapes for quote, backslash, newline, tab,
+    // CR; everything else raw): the codecs must see the same text as through the context (seeded
+    // change C20-9: the unescaping loop of the lexer walked bytes)
+    {
+        let mut lit = String::from("\"");
+        for c in s.chars() {
+            match c {
+                '"' => lit.push_str("\\\""),
+                '\\' => lit.push_str("\\\\"),
+                '\n' => lit.push_str("\\n"),
+                '\t' => lit.push_str("\\t"),
+                '\r' => lit.push_str("\\r"),
+                c => lit.push(c),
+            }
+        }
+        lit.push('"');
+        // delimiters inside a literal are fine for the lexer; `{#` / `{%` / `{{` need no care inside `{{ }}`
+        let src_lit = format!("{{{{ {lit} | urlencode_strict }}}}|{{{{ {lit} | b64_encode }}}}|{{{{ {lit} | json_encode }}}}");
+        let src_ctx = "{{ s | urlencode_strict }}|{{ s | b64_encode }}|{{ s | json_encode }}";
+        let a = engine::render_str(tera, &src_lit, &ctx, false);
+        let b = engine::render_str(tera, src_ctx, &ctx, false);
+        if a != b {
+            acc.violation(
+                "literal-operand-differs-from-context-operand",
+                format!("`{src_lit}` gives {}, the same string from the context gives {}", a.show(), b.show()),
+                || json!({"template": src_lit, "s": s}),
+            );
+        }
+        acc.case(nonempty, "literal-operand:compared");
+    }
+
     // ---- base64
     for u in [false, true] {
         for p in [false, true] {
